@@ -379,6 +379,8 @@ def apply(s, name, args, ctx):
             s.containers.append(_Container(sub, [c.slots[k] for k in idx], "list"))
             if idx and idx != list(range(len(idx))):
                 s.flags["non_prefix_slice"] = True
+            if len(idx) >= 2 and idx == list(range(len(c.slots)))[::-1]:
+                s.flags["whole_population_reversed"] = True
             if args[0] % 2 and len(idx) > 0:
                 # a population made of the slice: iteration, map and further slicing go through the slice's own indices
                 from swcgeom.core import Population
@@ -476,6 +478,8 @@ def finish(s, ctx):
         ctx.cls("map")
     if s.flags.get("maps_sliced"):
         ctx.cls("map-over-a-population-made-of-a-slice")
+    if s.flags.get("whole_population_reversed"):
+        ctx.cls("whole-container-reversed-by-a-slice")
     if s.flags.get("map_verbose"):
         ctx.cls("map-with-progress-bar-and-uneven-work")
     if any(sp.get("casevar") for sp in s.layout):
@@ -489,13 +493,17 @@ def finish(s, ctx):
 SUBCHECKS = [
     Machine("containers", init_strategy,
             {"population": INT, "populations": SEL, "ps_get": SEL, "ps_iter": INT, "to_population": INT, "chain": SEL,
-             "get": SEL, "slice": lambda tier: st.lists(st.integers(-12, 12), min_size=4, max_size=4).map(lambda v: [abs(v[0])] + v[1:]),
+             "get": SEL, "slice": lambda tier: st.one_of(
+                 st.lists(st.integers(-12, 12), min_size=4, max_size=4).map(lambda v: [abs(v[0])] + v[1:]),
+                 # the everyday whole-range forms: [::-1], [:], [-1::-1], [::2], [::-2], [1:], [:-1]  (12 / -12 stand for "omitted")
+                 st.tuples(st.integers(0, 12), st.sampled_from([[12, -12, -1], [12, -12, 1], [-1, -12, -1], [12, -12, 2], [12, -12, -2],
+                                                                 [1, -12, 1], [12, -1, 1]])).map(lambda v: [v[0]] + v[1])),
              "iterate": INT, "map": INT, "transform": INT},
             start, apply, invariant, finish, quick=1200, thorough=4000, steps_quick=40, steps_thorough=70,
             shards_quick=8, required={"repeated-access": 40, "negative-index": 40, "chain-over>=2-members": 30,
                                       "populations": 40, "nested": 60, "has-empty-folder": 40, "roots:3": 20, "map": 10,
                                       "root-without-files": 5, "iterated-a-non-prefix-slice": 5,
                                       "map-over-a-population-made-of-a-slice": 2, "map-with-progress-bar-and-uneven-work": 3,
-                                      "layout-with-case-variant-extensions": 60,
+                                      "layout-with-case-variant-extensions": 60, "whole-container-reversed-by-a-slice": 40,
                                       "populations-over-roots-with-case-variant-extensions": 10}),
 ]
